@@ -13,6 +13,7 @@ import LemoProofs.Lemmas.Merkle
 import LemoProofs.Lemmas.Mpt
 import LemoProofs.C17Store
 import LemoProofs.C17Decode
+import LemoProofs.C17Storage
 namespace LemoProofs.C17
 open LemoModel.Merkle LemoProofs.MerkleLemmas
 
